@@ -3,6 +3,7 @@ package rules
 import (
 	"fmt"
 	"go/token"
+	"regexp"
 	"strings"
 
 	"golang.org/x/tools/go/ssa"
@@ -53,6 +54,7 @@ func init() {
 		Rules: []string{
 			"C16-R1 who-invokes(executeDuties) = 5 sites; facts-before(processExecution) ∋ select case = <-ticker.Next(); args from ticker.Slot()",
 			"C16-R2 two exclusive sites; ordering facts fetch/execute per branch",
+			"C16-R4 resets of stored duties outside the ticker case are paired with the re-fetch flag of the same scope (forward must-pass-through to the next select)",
 			"C16-R3 facts-before(append to toExecute) ∋ shouldExecute; Ens(shouldExecute|true) ∋ window; store mutation only after successful fetch",
 		},
 		Trusted: []string{"go/types + go/ssa"},
@@ -192,7 +194,164 @@ func runC16(c *core.Ctx) {
 			})
 		}
 		c.Min("C16-R3", k, 1, "duty-store mutations in "+h.typ+".fetchAndProcessDuties")
+		checkResetRefetch(c, h.typ, f)
 	}
+}
+
+// resetFlags: per handler, the fields whose setting makes the next tick fetch
+// the duties of the current / the next epoch or period again.
+var resetFlags = map[string]map[string][]string{
+	"AttesterHandler":      {"current": {"fetchCurrentEpoch"}, "next": {"fetchNextEpoch"}},
+	"ProposerHandler":      {"current": {"fetchFirst"}},
+	"SyncCommitteeHandler": {"current": {"fetchCurrentPeriod"}, "next": {"fetchNextPeriod"}},
+}
+
+// checkResetRefetch (C16-R4): outside the ticker case (reorg, indices change),
+// wiping the stored duties of a scope is paired, on every path to the next
+// select, with setting the flag that re-fetches THAT scope. Wiping the current
+// scope and flagging only the next one (or vice versa) silently drops fetched,
+// unchanged duties until the scope ends.
+func checkResetRefetch(c *core.Ctx, typ string, f *ssa.Function) {
+	const rule = "C16-R4"
+	a := c.E.Analyze(f)
+	var selBlock *ssa.BasicBlock
+	for _, b := range f.Blocks {
+		for _, in := range b.Instrs {
+			if _, ok := in.(*ssa.Select); ok {
+				selBlock = b
+			}
+		}
+	}
+	if selBlock == nil {
+		c.Undischarged(rule, typ+".HandleDuties|select loop", "no select found")
+		return
+	}
+	n := 0
+	for _, s := range callsIn(f, "ssv/operator/duties/dutystore.*.Reset*") {
+		if s.Fn != f {
+			continue
+		}
+		facts := a.FactsAt(s.Instr)
+		if isTickerCase(facts) {
+			continue // expiry of a finished scope / re-fetch handled by processFetching in the same tick (C16-R2)
+		}
+		args := s.Instr.Common().Args
+		arg := a.D.D(args[len(args)-1]).String()
+		scope := "current"
+		switch {
+		case reScopeNext.MatchString(arg):
+			scope = "next"
+		case reScopePast.MatchString(arg):
+			continue // a past scope needs no re-fetch
+		}
+		n++
+		flags := resetFlags[typ][scope]
+		construct := fmt.Sprintf("%s.HandleDuties|%s(%s scope)|re-fetch flagged", typ, s.Label[strings.LastIndex(s.Label, ".")+1:], scope)
+		if len(flags) == 0 {
+			c.Fail(rule, construct, c.P.Pos(s.Instr.Pos()), "the "+scope+" scope is wiped but this handler has no flag that re-fetches it")
+			continue
+		}
+		isFlag := func(in ssa.Instruction) bool {
+			st, ok := in.(*ssa.Store)
+			if !ok {
+				return false
+			}
+			fa, ok := st.Addr.(*ssa.FieldAddr)
+			if !ok {
+				return false
+			}
+			k, isConst := st.Val.(*ssa.Const)
+			if !isConst || k.Value == nil || k.Value.String() != "true" {
+				return false
+			}
+			for _, fl := range flags {
+				if fieldVar(fa) != nil && fieldVar(fa).Name() == fl {
+					return true
+				}
+			}
+			return false
+		}
+		// already flagged on every path before the reset?
+		okBefore := false
+		for _, fl := range flags {
+			if _, ok := facts.Has("stored(p0." + fl + ", true)"); ok {
+				okBefore = true
+			}
+			if _, ok := facts.Has("stored(p0.baseHandler." + fl + ", true)"); ok {
+				okBefore = true
+			}
+		}
+		ok := okBefore || mustPassThrough(s.Instr.(ssa.Instruction), isFlag, selBlock)
+		c.Decide(ok, rule, construct, c.P.Pos(s.Instr.Pos()), "every path to the next select sets "+strings.Join(flags, "/"),
+			fmt.Sprintf("the stored duties of the %s scope (%s) are wiped in a reorg / indices-change case, but not every path to the next select sets %s: those duties are not fetched again and are not dispatched until the scope ends", scope, clip(arg), strings.Join(flags, " or ")))
+	}
+	want := map[string]int{"AttesterHandler": 4, "ProposerHandler": 1, "SyncCommitteeHandler": 1}[typ]
+	c.Min(rule, n, want, typ+" resets outside the ticker case")
+}
+
+var reScopeNext = regexp.MustCompile(` \+ 1(:\w+)?\)$`)
+var reScopePast = regexp.MustCompile(` - 1(:\w+)?\)$`)
+
+// mustPassThrough: every path from just after `from` reaches an instruction
+// satisfying target before it reaches block stop or leaves the function.
+func mustPassThrough(from ssa.Instruction, target func(ssa.Instruction) bool, stop *ssa.BasicBlock) bool {
+	b := from.Block()
+	idx := -1
+	for i, in := range b.Instrs {
+		if in == from {
+			idx = i
+		}
+	}
+	visited := map[*ssa.BasicBlock]bool{}
+	var walk func(b *ssa.BasicBlock, start int) bool
+	walk = func(b *ssa.BasicBlock, start int) bool {
+		for i := start; i < len(b.Instrs); i++ {
+			if target(b.Instrs[i]) {
+				return true
+			}
+			if _, ret := b.Instrs[i].(*ssa.Return); ret {
+				return false
+			}
+		}
+		if len(b.Succs) == 0 {
+			return false
+		}
+		for _, s := range b.Succs {
+			if s == stop {
+				return false
+			}
+			if visited[s] {
+				continue
+			}
+			visited[s] = true
+			if !walk(s, 0) {
+				return false
+			}
+		}
+		return true
+	}
+	return walk(b, idx+1)
+}
+
+func isTickerCase(facts ens.FactSet) bool {
+	for _, k := range facts.Keys() {
+		ft := facts[k]
+		if ft.Kind != "eq" || len(ft.A) != 2 {
+			continue
+		}
+		for i := 0; i < 2; i++ {
+			sel, idx := ft.A[i], ft.A[1-i]
+			if sel.K != "extract" || sel.L != "0" || len(sel.A) != 1 || sel.A[0].K != "select" || idx.K != "const" {
+				continue
+			}
+			ci := atoiSafe(idx.L)
+			states := sel.A[0].A
+			if ci >= 0 && ci < len(states) && states[ci].K == "recv" && strings.Contains(states[ci].String(), "ssv/operator/slotticker.SlotTicker.Next") {
+				return true
+			}
+		}
+	}
+	return false
 }
 
 // checkTickerCase: the instruction is dominated by "select chose case k" and
